@@ -1,6 +1,7 @@
 import PyTrie.Lemmas.MissingProofs
 import PyTrie.Lemmas.MissingPath
 import PyTrie.Lemmas.RawPartial
+import PyTrie.Lemmas.ReadPartial
 /-! # C07 — missing nodes: operations fail atomically and report the truth
 
 `opGet`, `opTraverse`, `opSetDel` are `get`, `traverse`/`traverse_from`, `set`/`delete` over a store
@@ -150,5 +151,34 @@ theorem raw_delete_missing_on_path (H : Bytes → Bytes) (hlen : ∀ b, (H b).le
     (he : rawDelete H fuel st (toItem H t) k = .error (.missing h)) :
     lookup st.db h = none ∧ (OnPath (stdHashing H) t k h ∨ SiblingOnPath (stdHashing H) t k h) :=
   rawDelete_missing_on_path H hlen t hc k st hst fuel hf h he
+
+end PyTrie.Props.C07
+
+/-! ## Raw level: lookups and traversals on incomplete databases
+
+`traverseD` / `traverseOutD` / `getD` are `_traverse_from`, `traverse`/`traverse_from` and `get` over rlp-decoded nodes
+fetched from the database (run against the code on the damaged databases of this check). `firstMissingRead` is the
+first hashed node on the requested path — with the nibbles consumed to reach it — that the database cannot answer:
+exactly what the executor's `opGet` / `opTraverse` report, so `get_missing_truthful`, `traverse_truthful` etc. are
+statements about this transcription. -/
+namespace PyTrie.Props.C07
+open PyTrie PyTrie.Hex PyTrie.HexD PyTrie.HexRaw
+
+theorem raw_traverse_partial (H : Bytes → Bytes) (hlen : ∀ b, (H b).length = 32) (db : Db) (t : Node) (hc : Canon t)
+    (hst : PartialD H db t) (p : Path) (fuel : Nat) (hf : p.length < fuel) :
+    traverseOutD H db fuel (toItem H t) p =
+      match firstMissingRead H db t p [] with
+      | some (h, pre) => .error (.missing h pre)
+      | none => .ok (TravOut.toD H (traverseOut t p)) :=
+  traverseOutD_partial H hlen db t hc hst p fuel hf
+
+theorem raw_get_partial (H : Bytes → Bytes) (hlen : ∀ b, (H b).length = 32) (db : Db) (root : Hash) (t : Node) (hc : Canon t)
+    (hroot : RootPartial H db root t) (hst : PartialD H db t) (k : Path) :
+    getD H db root k =
+      if isBlank t = false ∧ lookup db root = none then .error (.missing root [])
+      else match firstMissingRead H db t k [] with
+        | some (h, pre) => .error (.missing h pre)
+        | none => .ok (Hex.get t k) :=
+  getD_partial H hlen db root t hc hroot hst k
 
 end PyTrie.Props.C07
